@@ -74,7 +74,25 @@ def decompose(n, s, force=False):
                             if w != c.a[2]:
                                 sub[tm.isvar(c.a[0], c.a[1], w)] = tm.FALSE
         u2 = tm.subst(u, sub) if sub else u
-        out.append((g, u2))
+        # the gate itself: its literal conjuncts decide parts of its compound conjuncts (a case whose gate
+        # becomes false is dropped; `contains(k)` collapses to the presence of the entry the literals select)
+        g2 = g
+        asub = dict((k, v) for k, v in sub.items() if k.op not in ("and", "or", "ite", "not"))
+        if asub and g.op == "and":
+            for _round in range(2):
+                parts = []
+                for c in (g2.a if g2.op == "and" else (g2,)):
+                    if c.op in ("and", "or", "ite") or (c.op == "not" and c.a[0].op in ("and", "or", "ite")):
+                        parts.append(tm.subst(c, asub))
+                    else:
+                        parts.append(c)
+                g3 = tm.and_(*parts)
+                if g3 is g2:
+                    break
+                g2 = g3
+        if g2 is tm.FALSE:
+            continue
+        out.append((g2, u2))
     return out
 
 
@@ -205,6 +223,8 @@ class Classifier(object):
         leaf.next = n
         if n is s:
             return leaf.init
+        if s in tm.free_syms(n) and not decompose(n, s):
+            return leaf.init            # every updating case has a contradictory gate: never changed
         if leaf.kind == "pres":
             return self.presence(leaf, n)
         if leaf.sibling is not None:
@@ -290,6 +310,19 @@ class Classifier(object):
                 return total
             return tm.vop("add", leaf.init, total) if vec else tm.add(leaf.init, total)
         # append
+        if cases and all(u.op == "push" and u.a[0] is s and self.free_of_state(u.a[1]) for g, u in cases) \
+                and not all(self.free_of_state(g) for g, u in cases):
+            # a gate that mentions other loop-carried values only vacuously (e.g. "the DEMANDA arm did not fail"
+            # on the path of another arm): replace it by an equivalent state-free gate when that can be shown
+            c2 = []
+            for g, u in cases:
+                g2 = self.state_free_gate(g)
+                if g2 is None:
+                    c2 = None
+                    break
+                c2.append((g2, u))
+            if c2 is not None:
+                cases = c2
         if cases and all(self.free_of_state(g) and u.op == "push" and u.a[0] is s
                          and self.free_of_state(u.a[1]) for g, u in cases):
             self.kinds.append(("append", cases))
@@ -339,6 +372,35 @@ class Classifier(object):
             return mk("fold", self.src, leaf.init, tm.lam([s, self.elem], n))
         self.general.append((s, n))
         return mk("foldgen", self.uid, len(self.general) - 1)
+
+    def state_free_gate(self, g):
+        if self.free_of_state(g):
+            return g
+        eq = getattr(self, "equiv", None)
+        if eq is None:
+            return None
+        atoms = {}
+        for t in tm.subterms(g):
+            if t.op in ("and", "or", "not", "ite"):
+                continue
+            if tm.free_syms(t) & self.state_syms:
+                # maximal state-dependent atoms only
+                atoms[t.id] = t
+        inner = set()
+        for t in atoms.values():
+            for x in tm.subterms(t):
+                if x is not t and x.id in atoms:
+                    inner.add(x.id)
+        tops = [t for i, t in atoms.items() if i not in inner]
+        if not tops or len(tops) > 12:
+            return None
+        g1 = tm.subst(g, dict((t, tm.TRUE) for t in tops))
+        g0 = tm.subst(g, dict((t, tm.FALSE) for t in tops))
+        if not (self.free_of_state(g1) and self.free_of_state(g0)):
+            return None
+        if g1 is g0 or eq(g1, g0):
+            return g1
+        return None
 
     def minmax(self, leaf, n):
         s = leaf.sym
